@@ -16,6 +16,8 @@ import (
 
 var registry = map[string]*PropInfo{}
 
+var analysisMu sync.Mutex
+
 func register(pi *PropInfo) { registry[pi.ID] = pi }
 
 type buildCfg struct{ goos, goarch string }
@@ -31,6 +33,10 @@ func runOne(info *PropInfo, repo, tier string, bc buildCfg, overlay map[string][
 	if lerr != nil {
 		return nil, lerr
 	}
+	// the analyses share process-wide caches and the notion of "the program under
+	// analysis": loading runs in parallel, analysing does not
+	analysisMu.Lock()
+	defer analysisMu.Unlock()
 	c = NewCtx(p, info.ID, tier)
 	func() {
 		defer func() {
@@ -61,6 +67,7 @@ func main() {
 	ncf := flag.String("nc", "", "print the necessary conditions of every block of module functions whose key contains this string")
 	wfuncs := flag.String("write-funcs", "", "write the function keys of -repo (the reference tree) to this file and exit")
 	flag.Parse()
+	refRecvForm("") // initialise the reference-function table before anything runs in parallel
 	if *ncf != "" {
 		p, err := Load(LoadConfig{Dir: *repo})
 		if err != nil {
@@ -188,6 +195,9 @@ func runProp(info *PropInfo, repo, verif, tier string, seed int64, list bool) in
 			res.excluded[k] = true
 		}
 		res.notes = append(res.notes, o.c.Notes...)
+		for _, n := range o.c.P.InlineNotes {
+			res.notes = append(res.notes, "normalisation ("+o.bc.String()+"): "+n)
+		}
 	}
 	if list {
 		for _, o := range res.obls {
